@@ -70,7 +70,7 @@ impl Compound {
     /// Create a compound shape from the `TriMesh`. This involves merging adjacent triangles into convex
     /// polygons using the Hertel-Mehlhorn algorithm.
     ///
-    /// Can fail and return `None` if any of the created shapes has close to zero or zero surface area.
+    /// Can fail and return `None` if any of the created shapes has a degenerate (zero-length) edge.
     pub fn decompose_trimesh(trimesh: &TriMesh) -> Option<Self> {
         let polygons = hertel_mehlhorn(trimesh.vertices(), trimesh.indices());
         let shapes: Option<Vec<_>> = polygons
@@ -81,7 +81,12 @@ impl Compound {
                         let triangle = Triangle::new(points[0], points[1], points[2]);
                         Some(SharedShape::new(triangle))
                     }
-                    _ => ConvexPolygon::from_convex_polyline(points).map(SharedShape::new),
+                    // A thin (needle-like) convex piece can have all its corners but two below the
+                    // collinearity tolerance of `from_convex_polyline`, which then rejects it although its
+                    // area can be large: keep such a piece with all its points instead of failing.
+                    _ => ConvexPolygon::from_convex_polyline(points.clone())
+                        .or_else(|| ConvexPolygon::from_convex_polyline_unmodified(points))
+                        .map(SharedShape::new),
                 }
                 .map(|shape| (Isometry::identity(), shape))
             })
